@@ -118,18 +118,18 @@ Section P6.
   Variable falsy : V -> bool.
   Variable cf : cfg.
   Notation fdict := (dict_filter V falsy cf).
-  Notation skip := (as_instance V).
-  Notation post := (dict_post V).
+  Notation skip := (as_instance V cf).
+  Notation post := (dict_post V cf).
 
   (* components without free parameters excluded; arithmetic priors allowed *)
   Definition dict_node_ok2 (n : snode) : bool :=
     match n with
-    | SNode (KModel _ _) _ _ => negb (no_priors V n)
+    | SNode (KModel _ _) _ _ => negb (as_instance V cf n)
     | SDict items => fix_falsy cf || forallb (fun kv => negb (falsy (snd kv))) items
     | _ => true
     end.
 
-  Lemma ok2_pre (m : snode) : dict_node_ok2 m = true -> dict_pre V m = None /\ as_instance V m = false.
+  Lemma ok2_pre (m : snode) : dict_node_ok2 m = true -> dict_pre V cf m = None /\ as_instance V cf m = false.
   Proof.
     destruct m as [p sp|v|items|[cls ctor| |idx|o|cls ctor] ch asr]; simpl; intro H; try (split; reflexivity).
     apply negb_true_iff in H. unfold dict_pre, as_instance. rewrite H. split; reflexivity.
@@ -172,7 +172,7 @@ Section P6.
     Qed.
 
     Lemma dict_post_bin (o : binop) ch0 asr0 (ln' rn' : string) (l' r' : snode) asr :
-      dict_post V (SNode (KBin o) ch0 asr0) [(ln', l'); (rn', r')] asr =
+      dict_post V cf (SNode (KBin o) ch0 asr0) [(ln', l'); (rn', r')] asr =
       if same_prior V l' r' then SNode (KBin o) [("right_", l'); ("right_", r')] asr
       else SNode (KBin o) [("left_", l'); ("right_", r')] asr.
     Proof. reflexivity. Qed.
@@ -196,7 +196,7 @@ Section P6.
           pose proof (IH _ Hin (Qc _ Hin) b') as E0. simpl in E0. rewrite E0. reflexivity. }
         destruct k as [cls ctor| |idx|o|cls ctor].
         + (* Model with free parameters *)
-          simpl in Qn. apply negb_true_iff in Qn. unfold dict_post. rewrite Qn.
+          cbn [dict_node_ok2] in Qn. apply negb_true_iff in Qn. cbn [dict_post]. rewrite Qn.
           cbn [erase]. rewrite !erase_children, E. cbn [ren cnd]. rewrite ren_attrs_eq, cnd_attrs_eq. reflexivity.
         + unfold dict_post, rebuild_same. cbn [erase]. rewrite !erase_children, E. cbn [ren cnd].
           rewrite ren_attrs_eq, cnd_attrs_eq. reflexivity.
@@ -252,7 +252,7 @@ Section P6.
                  forall a : nat -> option V, inst V bin a (tree V n') = inst V bin (fun q => a (s q)) (tree V n).
   Proof.
     intros HQ HR W.
-    assert (HQ' : forall_nodes V (fun m => match dict_pre V m with None => true | Some _ => false end) n = true).
+    assert (HQ' : forall_nodes V (fun m => match dict_pre V cf m with None => true | Some _ => false end) n = true).
     { apply (forall_nodes_impl V dict_node_ok2); [|exact HQ]. intros m H. rewrite (proj1 (ok2_pre m H)). reflexivity. }
     assert (VO : forall m, forall_nodes V dict_node_ok2 m = true -> vocc V skip m = occs V m).
     { intro m. induction m as [p sp|v|items|k ch asr IH] using (snode_ind' V); intro H; try reflexivity.
